@@ -5,10 +5,14 @@ from . import build
 
 QUICK = [('simd', 'rel'), ('simd', 'chk'), ('serial64', 'rel'), ('serial64', 'chk'), ('serial32', 'rel'),
          ('serial32', 'chk'), ('fiat64', 'rel'), ('fiat32', 'rel'), ('simd-notables', 'rel'), ('simd-legacy', 'rel'),
-         ('avx512', 'rel')]
+         ('avx512', 'rel'), ('avx512', 'chk'), ('simd', 'bnd'), ('avx512', 'bnd')]
 
 
 def main():
+    from . import tracediff
+    ok, msg = tracediff.ensure_stepper()
+    if not ok:
+        print('stepper build failed:', msg)
     res, msgs = build.ensure(QUICK)
     bad = [k for k, v in res.items() if v is None and not any('nightly toolchain unavailable' in m for m in msgs)]
     for m in msgs:
